@@ -1,5 +1,6 @@
 import PygVerif.Generated
 import PygVerif.Model.Selector
+import PygVerif.Model.Proto
 /-!
 # Driver — line protocol between the Python harness and the executable model
 
@@ -37,6 +38,16 @@ def encOpt : Option Str → String
 def encBool (b : Bool) : String := if b then "T" else "F"
 def decBool (s : String) : Bool := s == "T"
 
+def protoOfShort (s : String) : Option Proto :=
+  match s with
+  | "wap" => some .wap | "gemini" => some .gemini | "http" => some .http | "https" => some .https
+  | "spartan" => some .spartan | "gopherp" => some .gopherp | "sgopherp" => some .sgopherp
+  | "gopher" => some .gopher | "sgopher" => some .sgopher | _ => none
+
+def encParsed (p : Parsed) : String :=
+  "\t".intercalate [encStr p.selector, encOpt p.search, encBool p.head, encOpt p.gplus,
+    encOpt p.geminiInput, encBool p.badRequest]
+
 def step (fields : List String) : String :=
   match fields with
   | ["secure", s] => encBool (secureB Generated.forbidden (decStr s))
@@ -57,6 +68,21 @@ def step (fields : List String) : String :=
   | ["split", c, s] => encList (splitOn c.toNat! (decStr s))
   | ["basename", s] => encStr (basename (decStr s))
   | ["todec", n] => encStr (toDec n.toNat!)
+  | ["detect", ps, tls, line, rest] =>
+    let protos := (decList ps).filterMap Proto.ofName
+    (match detect Generated.waptop protos ⟨decBool tls, decStr line, decList rest⟩ with
+     | some p => encStr p.className
+     | none => "NONE")
+  | ["can", p, tls, line, rest] =>
+    (match protoOfShort p with
+     | some pr => encBool (can Generated.waptop pr ⟨decBool tls, decStr line, decList rest⟩)
+     | none => "bad-proto")
+  | ["parse", p, tls, line, rest, nv] =>
+    (match protoOfShort p with
+     | some pr => encParsed (parseRequest Generated.waptop Generated.queryPrefix (decBool nv) pr
+                    ⟨decBool tls, decStr line, decList rest⟩)
+     | none => "bad-proto")
+  | ["sniff", s] => let (b, r) := sniff (decStr s); encBool b ++ "\t" ++ encStr r
   | _ => "bad-op"
 
 partial def loop (h : IO.FS.Stream) (out : IO.FS.Stream) : IO Unit := do
